@@ -159,8 +159,23 @@ func Run(p Property, opt Options) int {
 	// ---- confirmation: load-sensitive verdicts (C09 CPU time) are re-executed alone,
 	// serially, before they count; a verdict that does not reproduce is inconclusive
 	if cf, ok := p.(Confirmer); ok {
+		idleChecked, idle := false, true
 		confirm := func(r *Result) {
 			if r.V != Violated || !cf.NeedsConfirm(*r) || len(r.Replay) == 0 {
+				return
+			}
+			// a time verdict only counts when it reproduces on an otherwise idle machine:
+			// wait for the load of the parallel phase (or of anything else running here) to
+			// drain; if the machine never becomes idle the verdict stays inconclusive
+			if !idleChecked {
+				idleChecked = true
+				idle = waitIdle(3.0, 12*time.Minute)
+				if !idle {
+					fmt.Fprintf(os.Stderr, "[%s] machine not idle (1-minute load average stays above 3): load-sensitive verdicts are inconclusive\n", id)
+				}
+			}
+			if !idle {
+				r.V, r.Msg = Inconclusive, "not confirmed, the machine is busy with other work: "+r.Msg
 				return
 			}
 			d, err := p.Decode(r.Replay)
@@ -468,6 +483,30 @@ func confirmAlone(p Property, opt Options, desc any, limit time.Duration) bool {
 		_ = cmd.Process.Kill()
 		<-ch
 		return false
+	}
+}
+
+// waitIdle polls /proc/loadavg until the 1-minute load average is below max (true) or the
+// time is up (false).  Without /proc/loadavg it reports idle.
+func waitIdle(max float64, limit time.Duration) bool {
+	deadline := time.Now().Add(limit)
+	for {
+		b, err := os.ReadFile("/proc/loadavg")
+		if err != nil {
+			return true
+		}
+		f := strings.Fields(string(b))
+		if len(f) == 0 {
+			return true
+		}
+		v, err := strconv.ParseFloat(f[0], 64)
+		if err != nil || v < max {
+			return true
+		}
+		if time.Now().After(deadline) {
+			return false
+		}
+		time.Sleep(5 * time.Second)
 	}
 }
 
